@@ -10,5 +10,6 @@ CONSTANTS
  Behav <- BehAllVal
  Cancels = FALSE
  Raises = FALSE
+ Misbehaves = FALSE
  ShieldShared = TRUE
 INVARIANT NeverTwoBatches
